@@ -30,6 +30,8 @@ def _pool(tier):
         out.append(t)
     if "c09" in vars(templates):
         for t in templates.c09(tier):
+            if (t.get("opts") or {}).get("iv_class") in ("W", "X1", "X2", "X3"):
+                continue        # calendar-heavy shards: their error sites are the same macro branches as the other interval shapes
             t = dict(t)
             t["id"] = "C09." + t["id"]
             out.append(t)
